@@ -151,3 +151,100 @@ def c03_judge(o: Obs):
             return ("phantom", {"level": l, "phantom_level_prefixes": [list(x) for x in extra[:5]],
                                 "support_size": len(sup)})
     return None
+
+
+# --------------------------------------------------------------------------- all three kernel kinds
+
+
+@dataclass
+class KindsObs:
+    case: object
+    status: str = ""  # refused | internal | unsupported | ran
+    reason: str = ""
+    problem: object = None
+    module: object = None
+    evaluate: Obs = None
+    assemble: Obs = None
+    compute: Obs = None
+    events_compute: list = None
+
+
+def _run_kernel(o: Obs, case, problem, fn, state=None, record_access=False):
+    try:
+        if state is None:
+            res, state = engine.run_function(case, problem, fn, record_access=record_access)
+        else:
+            heap, structs, out, ins = state
+            res, state = engine.run_function(case, problem, fn, heap, structs, out, ins, record_access=record_access)
+        o.counters = res.counters
+        o.extra["machine"] = res.machine
+        o.extra["state"] = state
+        o.status = "ran"
+    except irvm.Unsupported as u:
+        o.status, o.reason = "unsupported", str(u)
+        return None
+    except irvm.IRViolation as v:
+        o.status = "ran"
+        o.violation = v
+        return None
+    try:
+        o.raw, o.decoded = engine.decode_output(res.out)
+    except taco.Malformed as m:
+        o.malformed = m
+    except irvm.IRViolation as v:
+        o.violation = v
+    return state
+
+
+def observe_kinds(case, one_request=True) -> KindsObs:
+    """evaluate on one heap; assemble then compute on another.  With one_request the three kinds
+    are requested in a single generate_module_tensora call (as the CLI does), else one by one."""
+    k = KindsObs(case)
+    try:
+        k.problem = engine.make_problem(case)
+        if one_request:
+            k.module = engine.generate_module(k.problem, ("assemble", "compute", "evaluate"), case.capacity)
+            fns = {f.name.name: f for f in k.module.definitions}
+        else:
+            fns = {}
+            for kind in ("assemble", "compute", "evaluate"):
+                m = engine.generate_module(k.problem, (kind,), case.capacity)
+                fns[kind] = m.definitions[0]
+    except engine.Refused as r:
+        k.status, k.reason = "refused", str(r)
+        return k
+    except engine.InternalError as e:
+        k.status, k.reason = "internal", str(e)
+        return k
+    k.status = "ran"
+    k.evaluate = Obs(case, "irvm", "evaluate", problem=k.problem)
+    _run_kernel(k.evaluate, case, k.problem, fns["evaluate"])
+    k.assemble = Obs(case, "irvm", "assemble", problem=k.problem)
+    # the assemble kernel leaves vals unwritten: decode with structure-only validation
+    state = None
+    try:
+        res, state = engine.run_function(case, k.problem, fns["assemble"])
+        k.assemble.counters = res.counters
+        k.assemble.extra["machine"] = res.machine
+        k.assemble.status = "ran"
+        try:
+            dims, modes, ordering, indices, vals = irvm.read_struct(res.out)
+            k.assemble.raw = (dims, modes, ordering, indices, vals)
+            # structure must be valid; values are not yet computed (cells may be uninitialised)
+            blank = None if vals is None else [0.0] * len(vals)
+            taco.validate(dims, modes, ordering, indices, blank, uninit=irvm.UNINIT, vals_slack=None)
+        except taco.Malformed as m:
+            k.assemble.malformed = m
+        except irvm.IRViolation as v:
+            k.assemble.violation = v
+    except irvm.Unsupported as u:
+        k.assemble.status, k.assemble.reason = "unsupported", str(u)
+    except irvm.IRViolation as v:
+        k.assemble.status = "ran"
+        k.assemble.violation = v
+    if state is not None and k.assemble.violation is None and k.assemble.malformed is None:
+        k.compute = Obs(case, "irvm", "compute", problem=k.problem)
+        _run_kernel(k.compute, case, k.problem, fns["compute"], state)
+        if "machine" in k.compute.extra:
+            k.events_compute = k.compute.extra["machine"].events
+    return k
